@@ -250,10 +250,13 @@ def run_cases(lines, harness="harness", timeout=7200, race_prop="C09"):
     def op_of(l):
         m = re.search(r'"op":\s*"(\w+)"', l[:80])
         return m.group(1) if m else ""
-    par = [k for k, l in enumerate(lines) if op_of(l) in PARALLEL_OPS] if harness == "harness" else []
+    # large runs (thorough tier) are spread over the cores whatever the op: every case is independent and
+    # every harness process has its own scratch directories
+    big = len(lines) >= 20000
+    par = [k for k, l in enumerate(lines) if big or op_of(l) in PARALLEL_OPS] if harness == "harness" else []
     if len(par) >= 64:
         import concurrent.futures
-        seq = [k for k in range(len(lines)) if op_of(lines[k]) not in PARALLEL_OPS]
+        seq = [k for k in range(len(lines)) if not big and op_of(lines[k]) not in PARALLEL_OPS]
         n = min(os.cpu_count() or 4, 16, max(1, len(par) // 16))
         step = (len(par) + n - 1) // n
         chunks = [par[i:i + step] for i in range(0, len(par), step)]
